@@ -305,7 +305,11 @@ func websocketClient(ctx context.Context, addr string, namespace string, outs []
 
 	var hnd reqestHandler
 	if len(config.reverseHandlers) > 0 {
-		h := makeHandler(defaultServerConfig())
+		sc := defaultServerConfig()
+		// the peer's reverse client formats method names with the formatter
+		// shared by both sides, so the handler table must use it too
+		sc.methodNameFormatter = config.methodNamer
+		h := makeHandler(sc)
 		h.aliasedMethods = config.aliasedHandlerMethods
 		for _, reverseHandler := range config.reverseHandlers {
 			h.register(reverseHandler.ns, reverseHandler.hnd)
